@@ -8,8 +8,7 @@ RULE = ("tables of 1..3 rows; K sign patterns in {-2, 0, 3}^n; omega on a grid i
         "P in day and yr; phases {0, 1, -2.5} rad; index expressions int / slice / mask / column; copy, mean, std, median_period; "
         "pack/unpack with and without linear columns; non-trivial = at least one negative K or more than one row")
 EXHAUSTIVE = True
-BOUNDED = ["metadata flow through __getitem__/copy/_apply/median_period and the pack/unpack round trip are decided here on the real class "
-           "(bounded: tables of <= 3 rows), not by VCs"]
+BOUNDED = ["native cross-check of the contracts on the real class (tables of <= 3 rows); JokerSamples.__setitem__'s validation is exercised here only"]
 KV = [-2.0, 0.0, 3.0]
 OM = [0.0, math.pi, 2 * math.pi - 1e-3, -0.5, 7.0]
 
